@@ -12,8 +12,9 @@ def main(tier):
                'pyvc execution of the nested ordered_selection and of the read loop of history on record models (tables with 4 rows; the SHORT order an arbitrary permutation)',
                'skipto / next_table opaque in the progress obligations: found => the position strictly advances; not found => end of file; next_table gives None after a failed skipto', 'z3'),
         assume=('termination of history as a whole is the progress obligations + a finite file: on a file where a wanted table is missing before the end, skip_to_table_TOUGH2 does not exit (observation outside the quantifier: every shipped listing has every table at every time)',
+                'the whole history() is run on a listing record (3 full result sets, optionally 2 short-output sets in between; 3 element rows, 2 connection rows; positioning is a counter, read_table_line returns symbolic cells named by result set / table / line) for short on / off: 3 programs',
                 'equality of the extracted series with stepping on the real files is bounded'),
         explanation='clause -> evidence: history never assigns the reader\'s time, step or tables and restores the index (PROVED as a frame obligation over every method reachable from history); '
                     'the selection is ordered per table in file order, full items by row line, short items by SHORT line, each item with its own reverse flag (PROVED for all row choices / directions / SHORT permutations of a 4-row model); '
                     'each extracted value is its own cell negated iff its own name was reversed (PROVED on the real read loop); every iteration of the table-skipping loops exits or advances the file '
-                    '(PROVED; TOUGH2 variant: or hits end of file). History == stepping on the shipped files for the enumerated selections, and wall-clock termination: BOUNDED.')
+                    '(PROVED; TOUGH2 variant: or hits end of file). The real history() as a whole on a listing record returns, for an element row printed in the short output, one that is not, a connection and a reversed connection, exactly the cells a step-through reads (negated for the reversed name), each paired with a time array of the same length holding the times it was read at, and leaves the reader index as it was (PROVED, symbolic cells and times, short on / off). History == stepping on the shipped files for the enumerated selections, and wall-clock termination: BOUNDED.')
